@@ -16,3 +16,8 @@ package geom
 //@ lemma snap_half_step_pos mode=real: forall f: float64, dp: int :: 1 <= dp && dp <= 320 ==> abs(snapToGridFloat64(f, dp) * pow10(dp) - f * pow10(dp)) <= 0.5
 //@ lemma snap_half_step_zero mode=real: forall f: float64 :: abs(snapToGridFloat64(f, 0) - f) <= 0.5
 //@ lemma snap_odd_real mode=real: forall f: float64, dp: int :: -320 <= dp && dp <= 320 ==> snapToGridFloat64(-f, dp) == -snapToGridFloat64(f, dp)
+
+//@ prop C07
+//@ lemma zigzag_decode_encode: forall n: int64 :: decodeZigZagInt64(encodeZigZagInt64(n)) == n
+//@ lemma zigzag_encode_decode: forall z: uint64 :: encodeZigZagInt64(decodeZigZagInt64(z)) == z
+//@ lemma zigzag_small_magnitudes: forall n: int64 :: -8 <= n && n <= 7 ==> encodeZigZagInt64(n) < 16
